@@ -232,6 +232,21 @@ class K1Adapter(CaseAdapter):
                      'C13': ['start-on-weekend', 'eom:month-end-on-weekend', 'out:ValueError', 'kind:bh']}
 
 
+class K3PAdapter(CaseAdapter):
+    module_name = 'k3p'
+    label = 'K3P (harness/k3p.py)'
+    N = dict(quick=400, thorough=6000)
+    SEARCH = dict(quick=1000, thorough=6000)
+    rule = ('seeded fill/mark sequences applied directly to one Position object (no handler): closes to exactly zero followed '
+            'by further fills, flips through zero, re-marks, refused fills (non-positive price, earlier timestamp); every '
+            'attribute and P&L figure compared with the Lean Position model after every op; non-trivial = at least three fills')
+    assumptions = ['the handler deletes flat positions; this harness keeps the Position object to cover the flat-and-continue paths']
+    required_hist = {'C03': ['went-flat', 'continued-after-flat', 'flipped-through-zero', 'refused']}
+
+    def accepts(self, case):
+        return case.get('kind') == 'position'
+
+
 class K2Adapter(CaseAdapter):
     module_name = 'k2'
     label = 'K2 (harness/k2.py)'
@@ -363,6 +378,10 @@ class C04Adapter(Composite):
     parts = (K3Adapter, K1Adapter)
 
 
+class C03Adapter(Composite):
+    parts = (K3Adapter, K3PAdapter)
+
+
 class K4K7Adapter(Composite):
     parts = (K4Adapter, K7Adapter)
 
@@ -373,6 +392,7 @@ class K5K7Adapter(Composite):
 
 PROPS = {p: K3Adapter for p in ('C01', 'C02', 'C03', 'C05', 'C15')}
 PROPS['C04'] = C04Adapter
+PROPS['C03'] = C03Adapter
 PROPS.update({p: K1Adapter for p in ('C12', 'C13')})
 PROPS['C06'] = K2Adapter
 PROPS['C16'] = K5K7Adapter
